@@ -277,9 +277,11 @@ class C02(core.Prop):
         return cinp['text']
 
     MUTANTS = {
-        'fragid_offset_reset': {'graph_utils': (
-            "        fragment_offset = max(source_graph.nodes[last_node_idx].get('fragid', [0])) + 1",
-            "        fragment_offset = max(source_graph.nodes[last_node_idx].get('fragid', [0])) + (1 if len(source_graph) < 6 else 0)")},
+        # (the running offset of merge_graphs no longer decides the resolver's fragment ids since repair 6a2a039: the old
+        #  mutant on that line became equivalent for this property; it lives on in C16, where the sampler relies on it)
+        'fragid_lags_from_sixth_atom': {'resolve': (
+            "                self.molecule.nodes[new_node]['fragid'] = [meta_node]",
+            "                self.molecule.nodes[new_node]['fragid'] = [meta_node if len(self.molecule) < 6 else meta_node - 1]")},
         'first_definition_overwritten': {'read_fragments': (
             "        if fragname not in fragment_dict:\n            fragment_dict[fragname] = mol_graph", "        fragment_dict[fragname] = mol_graph")},
         'hydrogen_membership_lost': {'pysmiles_utils': ("copy_attrs=['fragid', 'fragname', 'weight']", "copy_attrs=['fragname', 'weight']")},
